@@ -41,6 +41,11 @@ def build(cfg):
     r4 = Signal(signed(2), name="r4", init=-1)    # one (signed) signal, bits split between the two domains
     s.d[cfg["d1"]] += r4[0].eq(d)
     s.d[cfg["d2"]] += r4[1].eq(d)
+    # r5: bits 1..2 of a three-bit register are reached through a slice of a three-part concatenation (they behave
+    # like r1: same domain, same data); bit 0 is driven by nothing and keeps its initial value
+    p0, p1 = Signal(name="p0"), Signal(name="p1")
+    r5 = Signal(3, name="r5", init=7)
+    s.d[cfg["d1"]] += Cat(p0, p1, r5)[3:5].eq(Cat(d, d))
     # a one-bit memory row inside S: write port in d1 (data d), read port in d2, transparent read port in d1
     from amaranth.lib.memory import Memory
     mem = Memory(shape=1, depth=2, init=[1, 0])
@@ -67,7 +72,7 @@ def build(cfg):
     ka, kb = Signal(name="ka"), Signal(name="kb")
     outer.d.A += ka.eq(~ka)
     outer.d.B += kb.eq(~kb)
-    sigs = {"d": d, "c1": c["c1"], "c2": c["c2"], "r1": r1, "r2": r2, "r3": r3, "r4": r4, "mw": mem.data[0], "mr": mr, "mt": mt,
+    sigs = {"d": d, "c1": c["c1"], "c2": c["c2"], "r1": r1, "r2": r2, "r3": r3, "r4": r4, "r5": r5, "mw": mem.data[0], "mr": mr, "mt": mt,
             "clkA": cds["A"].clk, "clkB": cds["B"].clk}
     if cfg["A"]["rst"] != "none":
         sigs["rstA"] = cds["A"].rst
@@ -77,7 +82,7 @@ def build(cfg):
 
 
 def run(cfg, events):
-    """events: list of ("clk", ca, cb) | ("set", name, value). Returns list of (r1, r2, r3, r4, mw, mr, mt) after each event."""
+    """events: list of ("clk", ca, cb) | ("set", name, value). Returns list of (r1, r2, r3, r4, mw, mr, mt, r5) after each event."""
     top, sigs = build(cfg)
     sim = Simulator(top)
     out = []
@@ -91,7 +96,7 @@ def run(cfg, events):
             v4 = ctx.get(sigs["r4"])            # the model speaks of the bit pattern of the (signed) split register
             v4 = v4 & 3 if -2 <= v4 <= 1 else ("not a value of signed(2)", v4)
             out.append((ctx.get(sigs["r1"]), ctx.get(sigs["r2"]), ctx.get(sigs["r3"]), v4,
-                        ctx.get(sigs["mw"]), ctx.get(sigs["mr"]), ctx.get(sigs["mt"])))
+                        ctx.get(sigs["mw"]), ctx.get(sigs["mr"]), ctx.get(sigs["mt"]), ctx.get(sigs["r5"])))
 
     sim.add_testbench(tb)
     sim.run()
